@@ -33,6 +33,9 @@ type vfWireErr struct {
 	Message string
 	Details []*anypb.Any
 	Meta    map[string][]string
+	// DebugAnyPrefix: when set, a detail's "debug" member is written in google.protobuf.Any JSON form
+	// (as connect-go does) with "@type": DebugAnyPrefix + "/" + full name
+	DebugAnyPrefix string
 }
 
 var vfCodeNames = []string{"", "canceled", "unknown", "invalid_argument", "deadline_exceeded", "not_found", "already_exists", "permission_denied", "resource_exhausted", "failed_precondition", "aborted", "out_of_range", "unimplemented", "internal", "unavailable", "data_loss", "unauthenticated"}
@@ -64,6 +67,14 @@ func (e *vfWireErr) connectJSON(withDebug bool) map[string]any {
 			if withDebug {
 				if msg, err := d.UnmarshalNew(); err == nil {
 					if js, err := protojson.Marshal(msg); err == nil {
+						if e.DebugAnyPrefix != "" {
+							typ, _ := json.Marshal(e.DebugAnyPrefix + "/" + string(d.MessageName()))
+							if string(js) == "{}" {
+								js = []byte(`{"@type":` + string(typ) + `}`)
+							} else {
+								js = append([]byte(`{"@type":`+string(typ)+`,`), js[1:]...)
+							}
+						}
 						dm["debug"] = json.RawMessage(js)
 					}
 				}
@@ -112,6 +123,7 @@ func vfEnv(flags byte, p []byte) []byte {
 
 func vfGenWireErr(r *verifkit.Rand, allowInvalidUTF8 bool) *vfWireErr {
 	e := &vfWireErr{Code: 1 + r.Intn(16), Meta: map[string][]string{}}
+	e.DebugAnyPrefix = verifkit.Pick(r, []string{"", "", "type.googleapis.com", "https://type.googleapis.com", "example.com/types/v1", "buf.build/googleapis/googleapis"})
 	switch r.Intn(8) {
 	case 0:
 	case 1:
